@@ -5,7 +5,7 @@ import json
 import common
 from common import Inconclusive, b64, harness, tlc, tlc_ok, unb64
 
-ENC = {"\n": "N", "\r": "R", "\t": "T", "\\": "B", '"': "Q"}
+ENC = {"\n": "<LF>", "\r": "<CR>", "\t": "<TAB>", "\\": "<BS>", '"': "<Q>", "é": "<EACUTE>", "%": "<PCT>"}
 DEC = {v: k for k, v in ENC.items()}
 
 
